@@ -33,7 +33,7 @@ OUTSIDE = "parameter values outside the enumerated sets; float rounding; index l
 RULE = ("one evaluation = one explored path (sector of the Haigh plane of the cycle incl. its borders R = 0, +-inf, 1, R12, "
         "R23); distinct = distinct (clause, parameters, R_goal, path signature); non-trivial = cycle not already on the target ray")
 LABELS = ["goodman.formula", "compose", "idempotent", "on_target_unchanged", "monotone_in_amplitude",
-          "accessor_equals_function", "matrix.cycles_conserved"]
+          "accessor_equals_function", "matrix.cycles_conserved", "matrix.class_placement"]
 RTOL = 1e-9
 ATOL = 1e-12
 
@@ -130,6 +130,9 @@ def cases(tier):
             # range/mean layout whose classes at mean 0 are already at R = -1: their ranges fall on class edges
             out.append({"kind": "matrix", "M": M, "M2": M2, "Rg": Rg, "layout": "range_mean", "_weight": 2})
             out.append({"kind": "matrix", "M": M, "M2": M2, "Rg": Rg, "layout": "range_mean0", "_weight": 2})
+            # classes listed in another order than the sorted product, and a matrix with only some of its classes
+            out.append({"kind": "matrix", "M": M, "M2": M2, "Rg": Rg, "rows": "shuffled", "_weight": 2})
+            out.append({"kind": "matrix", "M": M, "M2": M2, "Rg": Rg, "layout": "range_mean", "rows": "sparse", "_weight": 2})
     return out
 
 
@@ -299,12 +302,37 @@ def _run_matrix(ctx, case):
         fr = pd.IntervalIndex.from_breaks([-2.0, 0.0, 2.0, 4.0], name="from")
         to = pd.IntervalIndex.from_breaks([-2.0, 0.0, 2.0, 4.0], name="to")      # diagonal classes have zero range
     idx = pd.MultiIndex.from_product([fr, to])
+    rows = {"shuffled": [3, 0, 8, 5, 1, 7, 2, 6, 4], "sparse": [0, 2, 4, 7]}.get(case.get("rows"))
+    if rows is not None:
+        idx = idx[[r for r in rows if r < len(idx)]]       # classes listed in another order / only some classes present
     counts = [ctx.real("n%d" % i) for i in range(len(idx))]
     for c in counts:
         ctx.assume(c >= 0)
     ser = pd.Series(np.array(counts, dtype=object if ctx.sym else np.float64), index=idx, name="cycles")
     res = ser.meanstress_transform.fkm_goodman(pd.Series({"M": M, "M2": M2}), Rg)
-    out = list(res.to_pandas() if hasattr(res, "to_pandas") else res)
+    resp = res.to_pandas() if hasattr(res, "to_pandas") else res
+    out = list(resp)
+    # histogram interface == plain function: every class lands in the result class that contains the transformed range
+    # of its mid point (the class mids and the diagram are concrete, so the ranges are plain floats from the real function)
+    lv = {n: idx.get_level_values(n) for n in idx.names}
+    if "from" in lv:
+        amp0, mean0 = np.abs(lv["from"].mid - lv["to"].mid) / 2., (lv["from"].mid + lv["to"].mid) / 2.
+    else:
+        amp0, mean0 = lv["range"].mid / 2., lv["mean"].mid
+    with ctx.suspended():
+        rng_t = 2. * np.asarray(MS.fkm_goodman(np.asarray(amp0, dtype=float), np.asarray(mean0, dtype=float), M, M2, Rg), dtype=float)
+    # (the plain function and the accessor round differently in the last place, and the largest range *is* the last class
+    #  limit: a transformed range within 1e-9 of a class limit may be counted on either side)
+    tol = 1e-9 * max(1.0, float(np.max(np.abs(rng_t)))) if len(rng_t) else 0.0
+    for j, iv in enumerate(resp.index.get_level_values("range")):
+        sure = [i for i in range(len(idx)) if iv.left + tol < rng_t[i] < iv.right - tol or (iv.left == 0.0 and -tol <= rng_t[i] < iv.right - tol)]
+        maybe = [i for i in range(len(idx)) if iv.left - tol <= rng_t[i] <= iv.right + tol]
+        lo = hi = 0
+        for i in sure:
+            lo = counts[i] + lo
+        for i in maybe:
+            hi = counts[i] + hi
+        ctx.claim(sym_and(out[j] >= lo, out[j] <= hi), "matrix.class_placement", (str(iv), sure, maybe, out[j]))
     tot_in = 0
     for c in counts:
         tot_in = c + tot_in
@@ -317,4 +345,4 @@ def _run_matrix(ctx, case):
 
 
 def kind_sig(case):
-    return (case["kind"], case["M"], case["M2"], case["Rg"])
+    return (case["kind"], case["M"], case["M2"], case["Rg"], case.get("layout"), case.get("rows"))
